@@ -67,6 +67,9 @@ func (g *Gen) schemaCheck(o *Occ) {
 		switch s.Kind {
 		case SScalar, SList, SMap:
 			w(`  vrt.Assert("C02/"+path+"/%s:type", vrt.SameType(a.Type, %s) && a.Attributes == nil)`, name, g.slotTypeExpr(s))
+			// C03 speaks of "an object that carries the attribute types of GenSchemaT": the harnesses type their
+			// objects from the oracle, so the schema's type has to be the oracle's (and the converters') type
+			w(`  vrt.Assert("C03/"+path+"/%s:schema-type-is-the-converters-type", vrt.SameType(a.Type, %s))`, name, g.slotTypeExpr(s))
 		case SMsg, SMsgList, SMsgMap:
 			mode := map[SlotKind]string{SMsg: "tfsdk.NestingModeSingle", SMsgList: "tfsdk.NestingModeList", SMsgMap: "tfsdk.NestingModeMap"}[s.Kind]
 			w(`  vrt.Assert("C02/"+path+"/%s:nested", a.Type == nil && a.Attributes != nil)`, name)
@@ -85,7 +88,7 @@ func (g *Gen) schemaCheck(o *Occ) {
 	}
 	body := b.String()
 	if g.SchemaProp != "" {
-		for _, p := range []string{"C02", "C10", "C17"} {
+		for _, p := range []string{"C02", "C03", "C10", "C17"} {
 			body = strings.ReplaceAll(body, `vrt.Assert("`+p+`/"+path`, `vrt.Assert("`+g.SchemaProp+`/schema/"+path`)
 		}
 	}
